@@ -6,6 +6,21 @@ import json
 NA_DEFAULT = "check not built yet (build round in progress); see DESIGN.md section 3 for the planned decision procedure"
 
 CLAIMED = {
+ "C04": dict(
+  technique="static analysis: decision-table extraction by abstract interpretation of go/ssa (no execution, no solver), field-flow PAIR rules, dominator rules, who-may-write rules",
+  text="Decides the complete precondition truth table of checkConditionalMatches and ConditionalMatch.MatchETag over resource state x each header in {unset, *, equal tag, other tag, not a quoted string} against the statement; that the check and every path check dominate the first destructive OS call; that option fields reach the check's parameters and header values reach the option fields of the same name unaltered and unswapped in all three servers, the filled options being the value handed to the backend; that FileInfo.ETag has one producer and every ETag header is written through internal.ETag.String. Does not decide equality of the tag strings produced at run time for one unmodified file, nor arbitrary bytes through %q/Unquote (standard-library contract).",
+  note="Trusted: go/ssa; my model of strconv.Unquote (fails, or yields an opaque string); a present resource has a non-empty tag.",
+  ref="DESIGN.md §3 C04"),
+ "C05": dict(
+  technique="static analysis: field-flow PAIR rules over go/ssa, who-may-call rule, decision-table extraction by abstract interpretation, dominator (presence-guard) rule, property-table/struct-tag agreement",
+  text="Structural necessary clauses: every FileInfo field flows into the matching PROPFIND property and GET/HEAD header on the server and is written from the matching wire property on the client (kind via ResourceType.Is(collection)); presence guards are on the non-zero side; property tables are keyed by the element they write; http.NewRequest is called only in internal.(*Client).NewRequest with ResolveHref(name).String(), every Destination header is ResolveHref(dest).String(), and ResolveHref's table is 'leading slash as is, else joined to the endpoint path'; the client's Copy/Move/ReadDir send exactly the Overwrite/Depth values that the server tables of C01 map back to the requested options. Does not decide the fidelity of URL/XML/HTTP-date escaping on particular characters nor byte-for-byte upload content (run-time behaviour of net/url, encoding/xml, net/http).",
+  note="Trusted: go/ssa; flows are may-flows (a missing flow is definite, a present flow may still be wrong in value).",
+  ref="DESIGN.md §3 C05"),
+ "C10": dict(
+  technique="static analysis: field-flow PAIR rules over go/ssa (per public client method), decision-table extraction by abstract interpretation (multiget), dominator (presence-guard) rule, property-table/struct-tag agreement, struct-tag schema check against RFC element tables",
+  text="Structural necessary clauses: each named attribute of Calendar/AddressBook/CalendarObject/AddressObject flows from the backend's value into the matching response property, header and body encoder on the server, and every field of the values returned by each public client method is written from the matching wire property or header (per method, so a dropped assignment in one method is not masked by another); PUT hands the caller's object to the encoder; presence guards are on the non-zero side; property tables are keyed by the element they write; multiget answers every href exactly once in order with the object or the backend's own status (exhaustive for <= 2 hrefs); all wire structs agree with the RFC element tables. Does not decide the iCalendar/vCard text round trip (go-ical/go-vcard), escaping, or lexical variants of incoming documents.",
+  note="Trusted: go/ssa; RFC tables in checker/e6_schema.go. Child order of DAV: elements is only noted (RFC 4918 §14 declares it irrelevant).",
+  ref="DESIGN.md §3 C10"),
  "C08": dict(
   technique="static analysis: field-flow (taint) analysis over go/ssa + struct-tag schema check against RFC element tables",
   text="Structural necessary conditions only, decided for every path of the current source: every field of the public CalDAV query types flows into a wire struct field in the client's request builders, every field of the wire request structs flows into the public query handed to the backend and every field of that query is written from the request, text fields pass unaltered, and the xml struct tags agree with the RFC 4791/4918 element tables. It decides that nothing is structurally dropped; it does not decide value-level fidelity (escaping, whitespace, lexical variants), which is run-time behaviour of encoding/xml.",
